@@ -3,7 +3,7 @@ from ..core import Script, Rng
 from ..stage import LineStage, replay_line
 from .common import *
 
-ARTEFACTS = ["G1-consts", "G2-rs-portable", "G2-ref-compress", "G15-rs-sse41", "G24-portable-many", "G16-rs-avx2", "G17-rs-sse2", "G21-c-avx512", "G21-c-avx512-prog", "G18-c-sse41", "G19-c-sse2", "G20-c-avx2", "G27-asm-sse41-compress", "G29-asm-sse2-compress", "G30-asm-avx512-compress", "G31-asm-avx512-compress-wgnu", "G32-asm-sse41-compress-wgnu", "G33-asm-sse2-compress-wgnu", "G37-asm-sse41-compress-msvc", "G40-asm-sse2-compress-msvc", "G41-asm-avx512-compress-msvc", "G34-asm-sse41-hash-many", "G44-asm-sse41-hash-many-wgnu", "G46-asm-avx2-hash-many"]
+ARTEFACTS = ["G1-consts", "G2-rs-portable", "G2-ref-compress", "G15-rs-sse41", "G24-portable-many", "G16-rs-avx2", "G17-rs-sse2", "G21-c-avx512", "G21-c-avx512-prog", "G18-c-sse41", "G19-c-sse2", "G20-c-avx2", "G27-asm-sse41-compress", "G29-asm-sse2-compress", "G30-asm-avx512-compress", "G31-asm-avx512-compress-wgnu", "G32-asm-sse41-compress-wgnu", "G33-asm-sse2-compress-wgnu", "G37-asm-sse41-compress-msvc", "G40-asm-sse2-compress-msvc", "G41-asm-avx512-compress-msvc", "G34-asm-sse41-hash-many", "G44-asm-sse41-hash-many-wgnu", "G46-asm-avx2-hash-many", "G45-asm-sse2-hash-many"]
 EXTRA_PROPS = [("B3.Simd.Sse41Props", "B3/Simd/Sse41Props.lean"), ("B3.Simd.Sse41PropsMany", "B3/Simd/Sse41PropsMany.lean"), ("B3.Props.C05P", "B3/Props/C05P.lean"), ("B3.Simd.Avx2Props", "B3/Simd/Avx2Props.lean"), ("B3.Simd.Sse2Props", "B3/Simd/Sse2Props.lean"), ("B3.Simd.CAvx512Props", "B3/Simd/CAvx512Props.lean"), ("B3.Simd.CSse41Props", "B3/Simd/CSse41Props.lean"), ("B3.Simd.CSse2Props", "B3/Simd/CSse2Props.lean"), ("B3.Simd.CAvx2Props", "B3/Simd/CAvx2Props.lean"), ("B3.Props.C05A", "B3/Props/C05A.lean"), ("B3.Props.C05B", "B3/Props/C05B.lean"), ("B3.Props.C05BW", "B3/Props/C05BW.lean"), ("B3.Props.C05W", "B3/Props/C05W.lean"), ("B3.Props.C05WM", "B3/Props/C05WM.lean"), ("B3.Props.C05M", "B3/Props/C05M.lean"), ("B3.Props.C05MW", "B3/Props/C05MW.lean"), ("B3.Props.C05M8", "B3/Props/C05M8.lean")]
 RULE = ("kernel calls, compared with the model's kernels (generated from src/portable.rs, proved = Spec.compress): single-block "
         "kernels on the grid block_len 0..64 x flag byte classes with random cv/block and counters from {0,1,2^32-1,2^32,2^32+1,2^63,"
@@ -366,7 +366,9 @@ class AsmManyStage:
     # G46: blake3_hash_many_avx2 (unix, 1733 instructions: 8-way ymm loop, 4-/2-/1-input tails) under B3/Asm/Avx2Sem.lean; its
     # runner also reports ` reads` (every load of the model lies inside what the routine may read)
     TARGETS = [("sse41_asm", "RunAsmMany.lean", "B3.Asm.RunMany"), ("win_sse41_asm", "RunAsmManyW.lean", "B3.Asm.RunManyW"),
-               ("avx2_asm", "RunAsmAvx2Many.lean", "B3.Asm.RunAvx2Many")]
+               ("avx2_asm", "RunAsmAvx2Many.lean", "B3.Asm.RunAvx2Many"),
+               # G45: blake3_hash_many_sse2 (unix, 1983 instructions) under B3/Asm/Many2Sem.lean: translated and run, not proved
+               ("sse2_asm", "RunAsmMany2.lean", "B3.Asm.RunMany2")]
 
     def __init__(self, seed, tier):
         self.seed, self.tier = seed, tier
